@@ -23,9 +23,14 @@ func c13(p Params) func() {
 	fault := p.Get("fault", "idle")
 	down := p.Int("down", 0)
 	setid := p.Get("setid", "1") == "1"
+	hookReject := p.Get("hook", "0") == "1" // the unavailable attempts fail in the client's PostDial hook instead of at the network
 	return func() {
 		begin()
-		vsched.Tag("fault=" + fault)
+		if hookReject {
+			vsched.Tag("fault=" + fault + " hook")
+		} else {
+			vsched.Tag("fault=" + fault)
+		}
 		const addr = "10.0.0.1:9000"
 		lis := vnet.Listen(addr)
 		gate := &world.Gate{}
@@ -67,7 +72,21 @@ func c13(p Params) func() {
 		round := 1 + budget // attempts per round
 		never := budget >= 0 && down >= round
 		// the server is unreachable for the first `down` attempts after the loss; if that exhausts the first round it stays unreachable
-		vnet.DialHook = func(a string, attempt int) bool { return never || attempt-dialsBefore <= down }
+		if hookReject {
+			redials := 0
+			rec.OnStage = func(stage string) {
+				if stage == "postdial_redial" {
+					redials++
+					if never || redials <= down {
+						rec.Veto["postdial_redial"] = erpc.NewStatus(erpc.CodeDialFailed, "redial handshake rejected", "")
+					} else {
+						delete(rec.Veto, "postdial_redial")
+					}
+				}
+			}
+		} else {
+			vnet.DialHook = func(a string, attempt int) bool { return never || attempt-dialsBefore <= down }
+		}
 		serverConn := func() *vnet.Conn {
 			var c *vnet.Conn
 			srv.RangeSession(func(s erpc.Session) bool { return true })
